@@ -16,7 +16,7 @@ LEVEL = "exploration"
 RULE = (
     "Enumerated: input length n in 0..N (N=6 quick, 8 thorough), start/stop in {None} u [-(n+2), n+2], "
     "step in {None} u 1..n+1, both source[a:b:c] and ops.slice(a,b,c), source ending in completion or in an "
-    "error after k elements; integer form source[i] for i in [-(n+2), n+2]; plus generated large magnitudes; plus a re-entrant Subject source whose next element is pushed by the slice's consumer from inside on_next (call-entry order is still 0,1,2,...); plus generated element VALUES (None, falsy, repeated, unhashable) under small slices, since slicing is positional. "
+    "error after k elements; integer form source[i] for i in [-(n+2), n+2]; plus generated large magnitudes (up to 10**9 and around / beyond the machine word: 2**31, 2**63-1 .. 2**70, both signs, slices and source[i]); plus a re-entrant Subject source whose next element is pushed by the slice's consumer from inside on_next (call-entry order is still 0,1,2,...); plus generated element VALUES (None, falsy, repeated, unhashable) under small slices, since slicing is positional. "
     "Oracle: list(range(n))[a:b:c] then completion; on error the emitted elements must be a prefix-consistent "
     "subsequence of the expected list followed by that error; the same sliced observable subscribed a second time must give the same result. Non-trivial: 0 < len(expected) < n or "
     "sign(start) != sign(stop). Distinct = distinct case JSON."
@@ -81,6 +81,8 @@ def _run(case):
         return FAIL(f"{sigkind}:second-subscription-differs", f"case={case} first={[v[1] for v in p.values()]}/{p.terminal()} second={got2}/{term2}")
     nontrivial = (0 < len(expected) < n) or ((a is not None and b is not None) and ((a < 0) != (b < 0)))
     cls = []
+    if any(isinstance(x, int) and abs(x) >= 2**63 for x in (a, b)):
+        cls.append("index-magnitude>=2**63")
     if case.get("vals"):
         cls.append("arbitrary-element-values")
         if any(x in FALSY_NAMES for x in names):
@@ -129,7 +131,9 @@ def _enum(tier):
             yield {"n": n, "a": i, "b": None, "c": None, "form": "index", "err": None}
 
 
-_big = st.one_of(st.none(), st.integers(-40, 40), st.integers(-(10**9), 10**9))
+# magnitudes up to and beyond the machine word: list slicing clamps indices of ANY size (no OverflowError)
+_huge = st.sampled_from([2**31, 2**63 - 1, 2**63, 2**63 + 1, 2**64, 2**70]).flatmap(lambda m: st.sampled_from([m, -m]))
+_big = st.one_of(st.none(), st.integers(-40, 40), st.integers(-(10**9), 10**9), _huge)
 _gen = st.fixed_dictionaries(
     {
         "n": st.integers(0, 14),
@@ -137,6 +141,16 @@ _gen = st.fixed_dictionaries(
         "b": _big,
         "c": st.one_of(st.none(), st.integers(1, 16)),
         "form": st.sampled_from(["getitem", "op"]),
+        "err": st.none(),
+    }
+)
+_gen_index = st.fixed_dictionaries(
+    {
+        "n": st.integers(0, 10),
+        "a": st.one_of(st.integers(-(10**9), 10**9), _huge),
+        "b": st.none(),
+        "c": st.none(),
+        "form": st.just("index"),
         "err": st.none(),
     }
 )
@@ -231,5 +245,5 @@ def checks(tier):
         Check("reentrant", _run_reentrant, strategy=_reentrant_cases(), examples={"quick": 2500, "thorough": 16 * 15000}, shards={"quick": 4, "thorough": 16}),
         Check("values", _run, strategy=_vals_cases(), examples={"quick": 3000, "thorough": 16 * 20000}, shards={"quick": 4, "thorough": 16}),
         Check("enum", _run, cases=_enum, shards={"quick": 8, "thorough": 16}, exhaustive=True),
-        Check("large", _run, strategy=_gen, examples={"quick": 400, "thorough": 16 * 4000}, shards={"quick": 1, "thorough": 16}),
+        Check("large", _run, strategy=st.one_of(_gen, _gen, _gen, _gen_index), examples={"quick": 800, "thorough": 16 * 4000}, shards={"quick": 1, "thorough": 16}),
     ]
